@@ -4,6 +4,7 @@ pub mod gen;
 pub mod props;
 pub mod runner;
 pub mod sched;
+pub mod selftest;
 pub mod sim;
 pub mod svc;
 pub mod vclock;
